@@ -207,7 +207,8 @@ def run(ctx):
             results.update(r)
     can = results.pop("canary-crash", None)
     if not can or can.get("outcome") != "crash":
-        raise MachineryFault("the crash canary was not reported as a crash: %s" % can)
+        # deferred: a supervisor problem must not hide crashes / hangs found in the same run
+        ctx.defer_fault("the crash canary was not reported as a crash: %s" % can)
     cases = [c for c in cases if c["id"] != "canary-crash"]
     classify(ctx, cases, results)
 
